@@ -566,3 +566,98 @@ def g_nonsep_direct(kind, nf, region='short'):
         return it2.call('dwt.lowlevel', 'sfb2d', bands + [filts], {'mode': mode}, force_body=True)
     return verify.verify_function('%s2d_nonsep==%s2d[periodization,%d,region=short-signal]' % (kind, kind, nf), 'dwt.lowlevel',
                                   '%s2d_nonsep' % kind, mk, base, contract, callees, SIZES + [Lr2], max_paths=3000)
+
+
+# ---------------------------------------------------------------------------
+# perfect reconstruction: closed-form lemma (symbolic) + shape lemmas
+# ---------------------------------------------------------------------------
+def g_pr_closed_form(dim, mode, canary=False):
+    Lc2_, Lr2_ = z3.Ints('Lc2 Lr2')
+    Lc_, Lr_ = 2 * Lc2_, 2 * Lr2_
+    mv = [Bn, C, N, H, W, Lc2_, Lr2_]
+    base = [Bn >= 1, C >= 1, N >= 1, H >= 1, W >= 1, Lc2_ >= 1, Lr2_ >= 1]
+    per = mode in ('per', 'periodization')
+    if per:
+        base += [N + N % 2 >= Lc_] if dim == 1 else [H + H % 2 >= Lc_, W + W % 2 >= Lr_]
+    CUR.ctx = Ctx(base)
+    wc = CD.wavelet_obj('col.', Lc_)
+    wr = CD.wavelet_obj('row.', Lr_)
+    if dim == 1:
+        A = CD.data_tensor('x', (Bn, C, N))
+        lo, hi = CD.spec_level_1d(A, wc.a['dec_lo'], wc.a['dec_hi'], mode)
+        R = CD.spec_inv_level_1d(lo, hi, wc.a['rec_lo'], wc.a['rec_hi'], mode)
+        CF = CD.pr_closed_form_1d(A, wc, mode)
+        Rc = tget(R, (slice(None), slice(None), slice(0, N)))
+        ext_ok = z3.Or(I(R.shape[2]) == N, I(R.shape[2]) == N + 1)
+    else:
+        A = CD.data_tensor('x', (Bn, C, H, W))
+        ll, hs = CD.spec_level_2d(A, (wc.a['dec_lo'], wc.a['dec_hi']), (wr.a['dec_lo'], wr.a['dec_hi']), mode)
+        R = CD.spec_inv_level_2d(ll, hs, (wc.a['rec_lo'], wc.a['rec_hi']), (wr.a['rec_lo'], wr.a['rec_hi']), mode)
+        CF = CD.pr_closed_form_2d(A, wc, wr, mode)
+        Rc = tget(R, (slice(None), slice(None), slice(0, H), slice(0, W)))
+        ext_ok = z3.And(z3.Or(I(R.shape[2]) == H, I(R.shape[2]) == H + 1), z3.Or(I(R.shape[3]) == W, I(R.shape[3]) == W + 1))
+    if canary:
+        cs = CF.snap()
+        CF = fresh_like(CF.shape, lambda idx: cs(list(idx[:-1]) + [simp(I(idx[-1]) + 1)]), CF)
+    c = ctx()
+    oid = 'LEMMA/closed-form-of-idwt(dwt(x))[%dD,%s]' % (dim, mode)
+    obs = [solve.prove(oid + '/extent-is-N-or-N+1', 'LEMMA', c.pc, ext_ok, mv)]
+    obs += verify.value_equal(oid, 'LEMMA', Rc, CF, c.pc, mv)
+    return obs, {}
+
+
+def g_pr_shapes():
+    """the inverse loop's unpad rule restores the forward pyramid's extents"""
+    n, l2 = z3.Ints('n l2')
+    l = 2 * l2
+    obs = []
+    for mode in ('zero', 'periodization'):
+        m = specs.dwt_len(bk, n, l, mode)
+        back = specs.idwt_len(bk, m, l, mode)
+        obs.append(solve.prove('LEMMA/idwt_len(dwt_len(n))in{n,n+1}[%s]' % mode, 'LEMMA', [n >= 1, l2 >= 1],
+                               z3.Or(back == n, back == n + 1), [n, l2]))
+        obs.append(solve.prove('LEMMA/synthesis-defined-on-forward-shapes[%s]' % mode, 'LEMMA', [n >= 1, l2 >= 1],
+                               back >= 1, [n, l2]))
+        # lowpass handed to level j by level j+1 has extent n' in {m, m+1}; the detail has extent m:
+        # "drop the last sample iff longer than the detail" yields extent m exactly
+        npr = z3.Int('nprime')
+        obs.append(solve.prove('LEMMA/unpad-rule-yields-detail-extent[%s]' % mode, 'LEMMA',
+                               [n >= 1, l2 >= 1, z3.Or(npr == m, npr == m + 1)],
+                               z3.If(npr > m, npr - 1, npr) == m, [n, l2, npr]))
+    return obs, {}
+
+
+def g_orth_transpose(dim):
+    """periodization, even extents >= L, synthesis filters = reversed analysis filters:
+    the synthesis operator is the transpose of the analysis operator (spec level)"""
+    Lc2_, Lr2_ = z3.Ints('Lc2 Lr2')
+    Lc_, Lr_ = 2 * Lc2_, 2 * Lr2_
+    mv = [Bn, C, N, H, W, Lc2_, Lr2_]
+    base = [Bn >= 1, C >= 1, Lc2_ >= 1, Lr2_ >= 1]
+    base += [N % 2 == 0, N >= Lc_] if dim == 1 else [H % 2 == 0, W % 2 == 0, H >= Lc_, W >= Lr_]
+    CUR.ctx = Ctx(base)
+    c = ctx()
+
+    def wavelet(pre, L_):
+        w = CD.wavelet_obj(pre, L_)
+        for k_ in ('lo', 'hi'):
+            d = w.a['dec_' + k_]
+            ds = d.snap()
+            w.a['rec_' + k_] = STensor((L_,), lambda idx, ds=ds: ds([simp(I(L_) - 1 - I(idx[0]))]), meta=dict(d.meta))
+        return w
+    wc, wr = wavelet('col.', Lc_), wavelet('row.', Lr_)
+    mode = 'periodization'
+    if dim == 1:
+        A = CD.data_tensor('x', (Bn, C, N))
+        ys = list(CD.spec_level_1d(A, wc.a['dec_lo'], wc.a['dec_hi'], mode))
+        gs_ = [CD.data_tensor('g%d' % k, y.shape) for k, y in enumerate(ys)]
+        S = CD.spec_inv_level_1d(gs_[0], gs_[1], wc.a['rec_lo'], wc.a['rec_hi'], mode)
+    else:
+        A = CD.data_tensor('x', (Bn, C, H, W))
+        ys = list(CD.spec_level_2d(A, (wc.a['dec_lo'], wc.a['dec_hi']), (wr.a['dec_lo'], wr.a['dec_hi']), mode))
+        gs_ = [CD.data_tensor('g%d' % k, y.shape) for k, y in enumerate(ys)]
+        S = CD.spec_inv_level_2d(gs_[0], gs_[1], (wc.a['rec_lo'], wc.a['rec_hi']), (wr.a['rec_lo'], wr.a['rec_hi']), mode)
+    oid = 'LEMMA/synthesis(reverse(dec))==analysis(dec)^T[%dD,periodization,even>=L]' % dim
+    obs = [solve.prove(oid + '/square', 'LEMMA', c.pc, z3.And(*[I(a) == I(b) for a, b in zip(S.shape, A.shape)]), mv)]
+    obs += ADJ.adjoint_obs(oid, ys, ['g0', 'g1'], S, 'x', c.pc, mv, kind='LEMMA')
+    return obs, {}
